@@ -29,15 +29,26 @@ let c14_spec c = let (cap, ops) = c14_case c in c14_obs (arun cap [] ops)
 (* ---------------- C11 ---------------- *)
 (* case: (c11 strict enc (prefix ...) reg decoded escaped) ; obs: ((path P) (match b) (serve b)) or (panic) *)
 let outc f = function Ok x -> f x | Panic -> A "panic"
+(* with the flavour "dyn" the route is registered as reg ++ "/{id}" and requested as path ++ "/7": a request reaches it iff its
+   normal form is the registered path with {id} replaced by 7 *)
+let c11_dyn = ref false
+let c11_sfx_reg = str_of_ascii "/{id}" and c11_sfx_req = str_of_ascii "/7"
+let rec c11_inst = function
+  | [] -> []
+  | l -> let pat = str_of_ascii "{id}" in
+    if Rt.has_prefix_l pat l then str_of_ascii "7" @ c11_inst (Rt.drop 4 l) else (match l with x :: r -> x :: c11_inst r | [] -> [])
 let c11_case = function
-  | L [A "c11"; st; enc; L gs; reg; dec; esc] -> (bool st, bool enc, List.map str gs, str reg, str dec, str esc)
+  | L [A "c11"; st; enc; L gs; reg; dec; esc; A "dyn"] ->
+    c11_dyn := true; (bool st, bool enc, List.map str gs, str reg @ c11_sfx_reg, str dec @ c11_sfx_req, str esc @ c11_sfx_req)
+  | L [A "c11"; st; enc; L gs; reg; dec; esc] -> c11_dyn := false; (bool st, bool enc, List.map str gs, str reg, str dec, str esc)
   | x -> failwith ("c11: bad case " ^ to_string x)
 let c11_model c =
   let (st, enc, gs, reg, dec, esc) = c11_case c in
   match reg_path st gs reg with
   | Panic -> A "panic"
   | Ok p ->
-    let hit q = match format_path st q with Ok k -> sbool (str_eqb k p) | Panic -> A "panic" in
+    let target = if !c11_dyn then c11_inst p else p in
+    let hit q = match format_path st q with Ok k -> sbool (str_eqb k target) | Panic -> A "panic" in
     L [L [A "path"; sstr p]; L [A "match"; hit dec]; L [A "serve"; hit (request_path enc dec esc)]]
 (* spec: closed form "/" ++ core, independent of the transcription of formatPath *)
 let c11_spec c =
@@ -45,7 +56,8 @@ let c11_spec c =
   let sl = n_of_int 47 in
   let nf s = sl :: core st s in
   let p = match gs with [] -> nf reg | _ -> nf (List.concat (List.map nf gs) @ nf reg) in
-  let hit q = sbool (str_eqb (nf q) p) in
+  let target = if !c11_dyn then c11_inst p else p in
+  let hit q = sbool (str_eqb (nf q) target) in
   L [L [A "path"; sstr p]; L [A "match"; hit dec]; L [A "serve"; hit (if enc then esc else dec)]]
 
 (* ---------------- C08 ---------------- *)
@@ -159,6 +171,8 @@ let c17_judge c obs =
     if to_string e = to_string obs then "ok" else "bad path-clean-model expected=" ^ to_string e
   | L (A "get" :: A kind :: _), L [A "get"; A st; id] ->
     let second = (kind = "dir2" || kind = "files2") in
+    (* gdir / gfiles: the same handlers registered inside a group; dire / filese / fse: on a router with UseEncodedPath *)
+    let kind = match kind with "gfiles" | "filese" -> "files" | "gdir" | "dire" -> "dir" | "fse" -> "fs" | k -> k in
     (match id with
      | L [A "out"; f] -> "bad serves-outside-root file=" ^ to_string f ^ " status=" ^ st
      | L [A "in"; f] when second -> "bad serves-outside-root file=(first-root)" ^ to_string f ^ " status=" ^ st
